@@ -57,8 +57,91 @@ def _job(args):
     return kind, out
 
 
+async def _burst_case(loop, limit, n, then_quit):
+    """`n` peers connect in the SAME loop iteration to a server that admits `limit`: every one of them is answered
+    (220 or 421), exactly `limit` are admitted, the counter is never negative, and afterwards every slot is back"""
+    import asyncio
+
+    import simnet
+
+    wd = W.World(loop, USERS, server_kwargs={"maximum_connections": limit})
+    await wd.start()
+    out = {}
+    try:
+        raws = [simnet.RawClient(wd.net) for _ in range(n)]
+        await asyncio.gather(*[r.connect(wd.port) for r in raws])
+        wd.clients.extend(raws)
+        low = wd.server.available_connections.value
+        for _ in range(12):
+            await loop.settle()
+            low = min(low, wd.server.available_connections.value)
+            await asyncio.sleep(0.05)
+        out["first"] = sorted(r.replies[0][0] if r.replies else ("closed-unanswered" if r.eof else "silent") for r in raws)
+        out["lowest_counter"] = low
+        if then_quit:
+            for r in raws:
+                if not r.eof and r.replies and r.replies[0][0] == "220":
+                    await W.run_line(wd, r, b"QUIT")
+        for r in raws:
+            r.close()
+        await loop.settle()
+        await asyncio.sleep(0.5)
+        await loop.settle()
+        out["free_after"] = wd.server.available_connections.value
+        late = await wd.raw_client()
+        await asyncio.sleep(0.1)
+        await loop.settle()
+        out["next"] = late.replies[0][0] if late.replies else None
+        late.close()
+        await loop.settle()
+    finally:
+        try:
+            await wd.stop()
+        except Exception:
+            wd.finish()
+    return out
+
+
+def _burst_job(args):
+    import simnet
+
+    try:
+        return simnet.run(_burst_case, *args)
+    except BaseException as e:  # noqa
+        return "HARNESS-ERROR %s: %s" % (type(e).__name__, e)
+
+
+BURSTS = [(1, 2), (1, 3), (2, 3), (2, 5), (3, 4), (3, 8), (2, 2), (4, 3)]
+
+
+def burst(ctx, res):
+    for limit, n in BURSTS:
+        for then_quit in (True, False):
+            o = _burst_job((limit, n, then_quit))
+            res.cases += 1
+            res.count("burst_of_connects")
+            res.distinct.add(("burst", limit, n, then_quit))
+            inp = {"kind": "burst", "maximum_connections": limit, "simultaneous_connects": n, "admitted_quit": then_quit}
+            if isinstance(o, str):
+                res.disagreements.append({"correspondence": "burst harness", "input": inp, "impl": o})
+                continue
+            want = sorted(["220"] * min(limit, n) + ["421"] * max(0, n - limit))
+            bad = []
+            if o["first"] != want:
+                bad.append("first replies %r, want %r" % (o["first"], want))
+            if o["lowest_counter"] < 0:
+                bad.append("the counter of free slots went down to %d" % o["lowest_counter"])
+            if o["free_after"] != limit:
+                bad.append("%r of %d slots free after every peer is gone" % (o["free_after"], limit))
+            if o["next"] != "220":
+                bad.append("the next peer got %r" % o["next"])
+            if bad:
+                res.oracle_failures.append({"input": inp, "what": "%d peers connecting at the same moment to a server that admits %d: %s" % (n, limit, "; ".join(bad)), "signature": "C10:burst-of-connects"})
+
+
 def run(ctx):
     res = Result()
+    burst(ctx, res)
     N = SC.run_scenario(SCEN)["iterations"]
     jobs = []
     for kind in ("vanish", "close"):
@@ -82,6 +165,11 @@ def run(ctx):
 
 
 def replay(inp):
+    if inp.get("kind") == "burst":
+        o = _burst_job((inp["maximum_connections"], inp["simultaneous_connects"], inp["admitted_quit"]))
+        print(o)
+        n, limit = inp["simultaneous_connects"], inp["maximum_connections"]
+        return isinstance(o, str) or o["first"] != sorted(["220"] * min(limit, n) + ["421"] * max(0, n - limit)) or o["lowest_counter"] < 0 or o["free_after"] != limit or o["next"] != "220"
     kind, out = _job((inp["cut"], [inp["iteration"]]))
     print(out)
     return bool(out[0][1])
